@@ -53,19 +53,23 @@ SUITES = (0x1301, 0x1302, 0x1303)
 
 # ------------------------------------------------------------- certificate menu
 MENU_DIR = os.path.join(CACHE, "c03certs")
-MENU = ("valid", "wrongname", "expired", "notyet", "selfsigned", "untrusted_ca", "missing_intermediate")
+MENU = ("valid", "wrongname", "expired", "notyet", "selfsigned", "untrusted_ca", "missing_intermediate",
+        "untrusted_ca_with_root", "untrusted_intermediate_with_root")
 
 
 def ensure_menu():
     """<kt>_<entry>.pem/.key for every key type: the defect menu of DESIGN C03 (vlib.certs has
     it for Ed25519 only).  Re-creatable: everything is derived from vlib.certs' CA."""
-    marker = os.path.join(MENU_DIR, "DONE.v1")
+    marker = os.path.join(MENU_DIR, "DONE.v2")
     if os.path.exists(marker):
         return
     os.makedirs(MENU_DIR, exist_ok=True)
     with open(certs.path("ca.key"), "rb") as f:
         cak = R.load_pem_key(f.read())
     ock = certs.gen_key("ed25519")   # an untrusted CA
+    oca = certs.make_cert("other-c03-ca", ock, ca=True)   # ... whose self-signed root the rogue server may ship itself
+    oik = certs.gen_key("ed25519")   # an intermediate under the untrusted CA
+    oic = certs.make_cert("other-c03-intermediate", oik, "other-c03-ca", ock, ca=True)
     ik = certs.gen_key("ed25519")    # an intermediate under the trusted CA
     ic = certs.make_cert("verif-c03-intermediate", ik, "verif-ca", cak, ca=True)
     now = certs.NOW
@@ -91,6 +95,9 @@ def ensure_menu():
             "selfsigned": certs.make_cert("localhost", k, sans=sans),
             "untrusted_ca": certs.make_cert("localhost", k, "other-c03-ca", ock, sans=sans),
             "missing_intermediate": certs.make_cert("localhost", k, "verif-c03-intermediate", ik, sans=sans),
+            # what the peer sends is never a trust anchor: leaf + the untrusted root / + intermediate + root
+            "untrusted_ca_with_root": certs.make_cert("localhost", k, "other-c03-ca", ock, sans=sans),
+            "untrusted_intermediate_with_root": certs.make_cert("localhost", k, "other-c03-intermediate", oik, sans=sans),
             "valid_own": certs.make_cert("localhost", k, "verif-ca", cak, sans=sans),
             "with_intermediate": certs.make_cert("localhost", k, "verif-c03-intermediate", ik, sans=sans),
         }
@@ -98,8 +105,12 @@ def ensure_menu():
             data = certs.pem_cert(c)
             if name == "with_intermediate":
                 data += certs.pem_cert(ic)
+            elif name == "untrusted_ca_with_root":
+                data += certs.pem_cert(oca)
+            elif name == "untrusted_intermediate_with_root":
+                data += certs.pem_cert(oic) + certs.pem_cert(oca)
             w("%s_%s.pem" % (kt, name), data)
-    w("DONE.v1", b"ok")
+    w("DONE.v2", b"ok")
 
 
 _CHAINS = {}
